@@ -117,11 +117,12 @@ class ModuleInfo:
 
 
 class Loader:
-    def __init__(self, repo=REPO, overlay=None, import_real=True):
+    def __init__(self, repo=REPO, overlay=None, import_real=True, real_modules=None):
         self.repo = repo
         self.overlay = overlay or {}
         self.modules = {}
         self.import_real = import_real
+        self.real_modules = real_modules or {}     # name -> already imported module (engine self-test)
         if repo not in sys.path:
             sys.path.insert(0, repo)
 
@@ -152,7 +153,9 @@ class Loader:
                 src = f.read()
         m = ModuleInfo(modname, path, src)
         self.modules[modname] = m
-        if self.import_real:
+        if modname in self.real_modules:
+            m.real = self.real_modules[modname]
+        elif self.import_real:
             try:
                 m.real = importlib.import_module(modname)
             except Exception as e:  # pragma: no cover
